@@ -316,10 +316,11 @@ theorem applicable_is_cell {ps : List PA} (hu : UniqueKeys ps) (hz : NoPortZero 
     the chains of the generated listener that Envoy selects for the client's connection to `d`
     (destination port, then transport protocol, then application protocols) do what the port's effective
     mode demands - in particular an Istio mutual-TLS client is, under STRICT and PERMISSIVE, handed only to
-    chains terminating mutual TLS and never to the TLS pass-through chain. -/
+    chains terminating mutual TLS and never to the TLS pass-through chain.  `_hown` restricts the claim (the
+    model has no blackhole chain for the listener's own port, see `virtualInboundPort`). -/
 theorem inbound_listener_enforces_per_client {ps : List PA} (hu : UniqueKeys ps) (hz : NoPortZero ps) (root : String)
     (w : Workload) (hs : w.svcNs = []) (svcPorts : List SvcPort) (declared : List Nat) (d : Nat) (hd : d > 0)
-    (hU : NoUserTLSFor svcPorts d) (hD : DeclaredHaveConfigs svcPorts declared)
+    (_hown : d ≠ virtualInboundPort) (hU : NoUserTLSFor svcPorts d) (hD : DeclaredHaveConfigs svcPorts declared)
     (hT : TargetsDistinct svcPorts) (hP : TargetsPos svcPorts) (hTD : TargetsDeclared svcPorts declared) (k : Client) :
     let sel := selectChains (applicable (inboundChains root ps w svcPorts declared) d) k.conn
     let mode := effectiveMode ps root w d
